@@ -431,9 +431,14 @@ func (db *RockDB) HDel(ts int64, key []byte, args ...[]byte) (int64, error) {
 
 	var num int64 = 0
 	var newNum int64 = -1
+	// the same field may be given more than once, it is removed and counted once
+	lastIdx := lastOccurrenceIndexes(len(args), func(i int) []byte { return args[i] })
 	for i := 0; i < len(args); i++ {
 		if err := common.CheckKeySubKey(rk, args[i]); err != nil {
 			return 0, err
+		}
+		if lastIdx != nil && lastIdx[string(args[i])] != i {
+			continue
 		}
 
 		ek = hEncodeHashKey(table, rk, args[i])
